@@ -234,14 +234,32 @@ class View:
             return type(e).__name__ + ': ' + str(e)[:80]
 
 
+def used_network(name, g, dynamics):
+    """the working network an EARLIER experiment with the same model left behind (every node in the model's second
+    compartment, attributes and all): a legitimate prototype for the next experiment, whose set-up must start afresh"""
+    import epydemic as E
+    m0 = make_model(name)
+    k = n_compartments(name)
+    install(Oracle(seed=7, script={'random': [(1 + 0.5) / k] * g.order() + [0.5] * (g.number_of_edges() + 8)}))
+    cls = E.StochasticDynamics if dynamics == 'stochastic' else E.SynchronousDynamics
+    d0 = cls(m0, E.FixedNetwork(g))
+    d0.setUp(_params(name))
+    used = d0.network()
+    for a, b in used.edges():
+        used.edges[a, b][m0.OCCUPIED] = True
+    return used
+
+
 class Live(View):
     """A single model instance set up on a real dynamics."""
 
-    def __init__(self, name, nodes, edges, init, dynamics='stochastic', seed=1):
+    def __init__(self, name, nodes, edges, init, dynamics='stochastic', seed=1, used=False):
         import epydemic as E
         g = networkx.Graph()
         g.add_nodes_from(nodes)
         g.add_edges_from([tuple(e) for e in edges])
+        if used:
+            g = used_network(name, g, dynamics)
         m = make_model(name)
         k = n_compartments(name)
         script = [(i + 0.5) / k for i in init]
@@ -510,7 +528,9 @@ class H(Harness):
         sh = Shadow(nodes, edges, init)
         ops = gen_history(rnd, sh, k, rnd.randrange(1, maxlen + 1), universe, stream)
         return {'model': model, 'nodes': nodes, 'edges': [list(e) for e in edges], 'init': init, 'universe': universe,
-                'ops': ops, 'stream': stream, 'dynamics': rnd.choice(['stochastic', 'synchronous'])}
+                'ops': ops, 'stream': stream, 'dynamics': rnd.choice(['stochastic', 'synchronous']),
+                # one case in five starts from the network an earlier experiment left behind (attributes and all)
+                'used': rnd.random() < 0.2}
 
     # named multi-instance combinations on one network (ProcessSequence from a dict)
     COMBOS = [[['SIR', 'a'], ['SIR', 'b']], [['SIR', 'a'], ['SIS', 'b']], [['Opinion', None], ['SIR', 'x']],
@@ -661,7 +681,7 @@ class H(Harness):
 
     # ---------------------------------------------------------------- execution
     def _run(self, case, ops):
-        lv = Live(case['model'], case['nodes'], [tuple(e) for e in case['edges']], case['init'], case.get('dynamics', 'stochastic'),
+        lv = Live(case['model'], case['nodes'], [tuple(e) for e in case['edges']], case['init'], case.get('dynamics', 'stochastic'), used=bool(case.get('used')),
                   seed=case.get('seed', 1))
         U = case['universe']
         d0 = lv.dump(U)
